@@ -9,6 +9,7 @@ import (
 	"time"
 
 	"github.com/brutella/hc/accessory"
+	"github.com/brutella/hc/verifhook"
 
 	"verif/harness/app"
 	"verif/refctl"
@@ -73,14 +74,26 @@ func insertedAtHandover(r *vf.Run, rnd *rand.Rand) {
 
 	n := r.Pick(90, 900)
 	bad := 0
+	// the forged frame of the variant same-segment+forged-frame is sent from inside the accessory's M4 write
+	var armed int32
+	var fired, stalled int64
+	var fire, firePoint atomic.Value
+	firePoint.Store("conn.write.enter")
+	verifhook.Install(func(point string) {
+		if point == firePoint.Load().(string) && atomic.CompareAndSwapInt32(&armed, 1, 0) {
+			fire.Load().(func())()
+			time.Sleep(3 * time.Millisecond)
+		}
+	})
+	defer verifhook.Install(func(string) {})
 	for i := 0; i < n && bad < 6; i++ {
 		r.Eval()
-		where := []string{"same-segment", "same-segment", "next-segment", "after-m4"}[i%4]
+		where := []string{"same-segment", "same-segment+forged-frame", "next-segment", "after-m4", "same-segment+stalled-accessory"}[i%5]
 		want := !sw.Switch.On.GetValue()
 		intruder := refctl.NewIdentity(fmt.Sprintf("c05-intruder-%d", i), rnd)
 		var ins []byte
 		kind := ""
-		switch (i / 4) % 5 {
+		switch (i / 5) % 5 {
 		case 0, 1:
 			kind = "PUT /characteristics (value)"
 			ins = refctl.BuildRequest("PUT", "/characteristics", refctl.ContentJSON, refctl.PutBody(refctl.CharValue{AID: aid, IID: on.IID, Value: refctl.RawJSON(want)}))
@@ -112,47 +125,70 @@ func insertedAtHandover(r *vf.Run, rnd *rand.Rand) {
 			return
 		}
 		m3 := refctl.BuildRequest("POST", "/pair-verify", refctl.ContentTLV8, refctl.VerifyM3(v.EncKey, refctl.VerifyM3Plain(me.ID, me.LTSK, v.Pub[:], v.AccPub)))
+		// (the inserted request is followed by filler: an accessory that takes its first two bytes for a frame length would
+		// otherwise wait for the rest of that frame for as long as the connection lives)
+		padded := append(append([]byte{}, ins...), make([]byte, 2200)...)
 		switch where {
-		case "same-segment":
+		case "same-segment+forged-frame":
+			// ... and, once the accessory has installed the keys (it is about to write M4: hook point conn.write.enter, or
+			// has just written it: conn.write.done), a frame that cannot authenticate: 2 bytes under a random tag.  The
+			// accessory's pending read takes and rejects it before the inserted request is looked at.  A rejected frame is
+			// not a received one.
+			forged := append(append([]byte{2, 0}, rbytes(rnd, 18)...), make([]byte, 2200)...) // (and filler, as above)
+			firePoint.Store([]string{"conn.write.done", "conn.write.enter", "conn.write.written"}[(i/5)%3])
+			fire.Store(func() { c.WriteRaw(forged); atomic.AddInt64(&fired, 1) })
+			atomic.StoreInt32(&armed, 1)
 			c.WriteRaw(append(append([]byte{}, m3...), ins...))
+		case "same-segment+stalled-accessory":
+			// ... and the accessory's goroutine is held for a few milliseconds right after it has written M4 (a loaded
+			// machine): the genuine controller's first frame arrives and is decrypted BEFORE the accessory looks at the
+			// inserted request.  That the connection has received encrypted data by then says nothing about this request.
+			fire.Store(func() { atomic.AddInt64(&stalled, 1) })
+			firePoint.Store([]string{"conn.write.done", "conn.write.written"}[(i/5)%2])
+			atomic.StoreInt32(&armed, 1)
+			c.WriteRaw(append(append([]byte{}, m3...), padded...))
+		case "same-segment":
+			c.WriteRaw(append(append([]byte{}, m3...), padded...))
 		case "next-segment":
 			c.WriteRaw(m3)
-			c.WriteRaw(ins)
+			c.WriteRaw(padded)
 		default:
 			c.WriteRaw(m3)
 		}
 		m4, err := c.ReadResponse()
-		if err != nil || m4.Status != 200 {
-			c.Close()
-			r.Count("inserted_cases_handover_not_completed", 1)
-			continue
+		if where != "same-segment+stalled-accessory" {
+			atomic.StoreInt32(&armed, 0)
 		}
-		r.Count("inserted_cases_handover_completed", 1)
-		if where == "after-m4" {
-			// (followed by filler: the accessory takes the first two bytes for a frame length and would otherwise wait for
-			// the rest of that frame for as long as the connection lives)
-			c.WriteRaw(append(append([]byte{}, ins...), make([]byte, 2200)...))
-		}
-		c.Secure(v.Shared)
-		// the genuine controller goes on
-		c.Send(refctl.BuildRequest("GET", own, "", nil))
 		var answers []string
 		success := 0
-		for k := 0; k < 3; k++ {
-			m, err := c.ReadResponse()
-			if err != nil {
-				answers = append(answers, "connection ended: "+firstWords(err.Error()))
-				break
+		if err != nil || m4.Status != 200 {
+			r.Count("inserted_cases_handover_not_completed", 1)
+			answers = append(answers, "no M4")
+		} else {
+			r.Count("inserted_cases_handover_completed", 1)
+			if where == "after-m4" {
+				c.WriteRaw(padded)
 			}
-			answers = append(answers, fmt.Sprintf("%d (%d body bytes)", m.Status, len(m.Body)))
-			if m.Status >= 200 && m.Status < 300 {
-				success++
-			}
-			if m.Status == 200 && strings.Contains(string(m.Body), fmt.Sprintf(`"iid":%d`, on.IID)) && !strings.Contains(string(m.Body), `"services"`) {
-				break // the answer to the controller's own request
+			c.Secure(v.Shared)
+			// the genuine controller goes on
+			c.Send(refctl.BuildRequest("GET", own, "", nil))
+			for k := 0; k < 3; k++ {
+				m, err := c.ReadResponse()
+				if err != nil {
+					answers = append(answers, "connection ended: "+firstWords(err.Error()))
+					break
+				}
+				answers = append(answers, fmt.Sprintf("%d (%d body bytes)", m.Status, len(m.Body)))
+				if m.Status >= 200 && m.Status < 300 {
+					success++
+				}
+				if m.Status == 200 && strings.Contains(string(m.Body), fmt.Sprintf(`"iid":%d`, on.IID)) && !strings.Contains(string(m.Body), `"services"`) {
+					break // the answer to the controller's own request
+				}
 			}
 		}
 		c.Close()
+		atomic.StoreInt32(&armed, 0)
 		if err := a.Probe(); err != nil {
 			r.Violation("inserted:accessory-not-serving", "after a request was inserted at the handover the accessory does not serve other connections: "+err.Error(), ic)
 			return
@@ -186,8 +222,12 @@ func insertedAtHandover(r *vf.Run, rnd *rand.Rand) {
 			}
 		}
 	}
-	r.Floor("inserted_cases_same-segment", int(r.Counter("inserted_cases_same-segment"))+10000*bad, n/3)
-	r.Floor("inserted_cases_handover_completed", int(r.Counter("inserted_cases_handover_completed"))+10000*bad, n*2/3)
+	r.Count("inserted_forged_frames_sent_from_inside_the_m4_write", int(atomic.LoadInt64(&fired)))
+	r.Count("inserted_cases_in_which_the_accessory_was_held_after_m4", int(atomic.LoadInt64(&stalled)))
+	r.Floor("inserted_cases_same-segment", int(r.Counter("inserted_cases_same-segment"))+10000*bad, n/6)
+	r.Floor("inserted_forged_frames_sent_from_inside_the_m4_write", int(atomic.LoadInt64(&fired))+10000*bad, n/6)
+	r.Floor("inserted_cases_in_which_the_accessory_was_held_after_m4", int(atomic.LoadInt64(&stalled))+10000*bad, n/6)
+	r.Floor("inserted_cases_handover_completed", int(r.Counter("inserted_cases_handover_completed"))+10000*bad, n/2)
 }
 
 func firstWords(s string) string {
@@ -195,4 +235,10 @@ func firstWords(s string) string {
 		return s[:80]
 	}
 	return s
+}
+
+func rbytes(rnd *rand.Rand, n int) []byte {
+	b := make([]byte, n)
+	rnd.Read(b)
+	return b
 }
